@@ -10,7 +10,7 @@ T=$(ls -d /root/.rustup/toolchains/nightly-x86_64-unknown-linux-gnu/lib/rustlib/
 rm -rf /tmp/cov; mkdir -p /tmp/cov
 rsync -a --exclude target "$VERIF/sim/" /tmp/cov/sim/
 cd "$VERIF"
-for p in C01 C02 C03 C04 C05 C06 C07 C08 C09 C11 C12 C13 C14 C15 C16 C17; do
+for p in ${COV_PROPS:-C01 C02 C03 C04 C05 C06 C07 C08 C09 C11 C12 C13 C14 C15 C16 C17}; do
   RUSTFLAGS="-C instrument-coverage" LLVM_PROFILE_FILE=/tmp/cov/prof/$p-%p-%8m.profraw VERIF_SIM=/tmp/cov/sim VERIF_OUT=/tmp/cov/out VERIF_MAX_SECS=${VERIF_MAX_SECS:-400} ./check $p --tier quick 2>&1 | tail -1
 done | tee /tmp/cov/log
 $T/llvm-profdata merge -sparse /tmp/cov/prof/*.profraw -o /tmp/cov/all.profdata
